@@ -76,6 +76,7 @@ def gen_race(seed, tier):
     programs.append(simgen.gen_units_flip_program(rng, rng.randint(3, 10)))
     roles[str(len(programs) - 1)] = "admin"
     cfg = simgen.gen_engine_config(rng, tier, len(programs))
+    simgen.tame_for_line_mode(programs, cfg)
     if cfg["mode"] == "none":
         cfg["mode"] = "cold"
     return {"seed": seed, "mode7": "race", "world": w, "programs": programs, "roles": roles, "config": cfg, "faults": []}
@@ -201,7 +202,7 @@ def gen_param_op(rng, b, w, ctx):
         if kind == "ammo":
             mw["ammos"].append({"dm": 0, "mv": maybe(rng, b, "velocity", rng.uniform(800, 3200), [2700.0, "FPS"], zero_p=Z, state=st),
                                 "powder_temp": gen.pick(rng, [None, maybe(rng, b, "temperature", rng.uniform(-20, 35), [15.0, "Celsius"], zero_p=Z, state=st)]),
-                                "use_ps": rng.random() < 0.5, "temp_modifier": 0.8})
+                                "use_ps": rng.random() < 0.5, "temp_modifier": 0.02})
             return mk("ammo")
         return mk("dm")
     if kind == "shot":
@@ -226,8 +227,8 @@ def gen_param_op(rng, b, w, ctx):
         return op
     if kind == "powder":
         return {"op": "powder", "ammo": ctx["own_ammo"],
-                "v": maybe(rng, b, "velocity", rng.uniform(2300, 3000), [2600.0, "FPS"], zero_p=Z, state=st),
-                "t": maybe(rng, b, "temperature", rng.uniform(-20, 40), [0.0, "Celsius"], zero_p=Z, state=st)}
+                "v": maybe(rng, b, "velocity", 2650.0 * (1 + rng.uniform(-0.04, 0.04)), [2600.0, "FPS"], zero_p=Z, state=st),
+                "t": maybe(rng, b, "temperature", 15.0 + gen.pick(rng, [-1, 1]) * rng.uniform(10, 35), [0.0, "Celsius"], zero_p=Z, state=st)}
     if kind == "vel_for_temp":
         return {"op": "vel_for_temp", "ammo": ctx["own_ammo"],
                 "t": maybe(rng, b, "temperature", rng.uniform(-20, 40), [0.0, "Celsius"], p=0.9, zero_p=Z, state=st)}
